@@ -172,23 +172,108 @@ pub fn mirror_scenario(prop: &str, seed: u64, index: u64) -> Option<Scenario> {
     let secs = ((iters as f64) + 0.5) * 1e-3;
     scn.params.insert("solve_timeout_secs".into(), (secs as f32) as f64);
     let solve = CallSpec::Solve { timeout_ns: f32_secs_to_ns(secs), stalls: vec![] };
-    if kind == PlannerKind::PRM {
+    let prm = kind == PlannerKind::PRM;
+    if prm {
         scn.planner.prm_timeout_s = ((iters as f64) + 0.5) * 1e-3;
-        scn.calls = vec![CallSpec::Setup { problem: 0 }, CallSpec::Construct { stalls: vec![] }, solve];
-    } else {
-        scn.calls = vec![CallSpec::Setup { problem: 0 }, solve];
+    }
+    // one `setup` (+ roadmap construction) with problem `p`'s callback, as a call list
+    let setup = |p: usize| -> Vec<CallSpec> {
+        if prm {
+            vec![CallSpec::Setup { problem: p }, CallSpec::Construct { stalls: vec![] }]
+        } else {
+            vec![CallSpec::Setup { problem: p }]
+        }
+    };
+    scn.calls = setup(0);
+    scn.calls.push(solve.clone());
+    // a start that coincides with the (fixed) goal sample: the core's path then repeats a state
+    if prop == "C19" && rng.chance(0.06) {
+        scn.problems[0].goal.target = scn.problems[0].starts[0].clone();
+        scn.params.insert("start_is_goal_sample".into(), 1.0);
+    }
+    if prop == "C19" {
+        // API histories the Python wrappers can express: solve again on the kept tree / roadmap,
+        // setup again with ANOTHER callback (the problem definition is fixed at construction in
+        // Python, so problem 1 = problem 0 checked against world 1 = world 0 plus one more ball)
+        let h = rng.below(10);
+        if h >= 6 {
+            let mut w1 = scn.worlds[0].clone();
+            let mut g2 = geo_for(&scn.space).ok()?;
+            for _ in 0..20 {
+                let Some(mut c) = g2.sample(&mut rng) else { break };
+                if !canon_state(&spec, &mut c) {
+                    continue;
+                }
+                let mut cand = scn.worlds[0].clone();
+                cand.obstacles.push(Obstacle::Ball { c, r: rng.range(0.05, 0.25) * ext });
+                g2.set_worlds(&[cand.clone()]);
+                if g2.valid(0, &scn.problems[0].starts[0]) && g2.valid(0, &scn.problems[0].goal.target) {
+                    w1 = cand;
+                    break;
+                }
+            }
+            scn.worlds.push(w1);
+            let mut p1 = scn.problems[0].clone();
+            p1.world = 1;
+            scn.problems.push(p1);
+            let mut calls: Vec<CallSpec> = vec![];
+            match h {
+                6 => {
+                    calls.extend(setup(0));
+                    calls.push(solve.clone());
+                    calls.push(solve.clone());
+                }
+                7 => {
+                    calls.push(CallSpec::Setup { problem: 0 });
+                    calls.extend(setup(1));
+                    calls.push(solve.clone());
+                }
+                8 => {
+                    calls.extend(setup(1));
+                    calls.push(solve.clone());
+                    calls.extend(setup(0));
+                    calls.push(solve.clone());
+                }
+                _ => {
+                    calls.extend(setup(0));
+                    calls.push(solve.clone());
+                    calls.extend(setup(1));
+                    calls.push(solve.clone());
+                }
+            }
+            scn.calls = calls;
+            scn.params.insert("history".into(), h as f64);
+        }
     }
     if prop == "C20" {
         // fault region: a ball between start and goal; world 1 = world 0 + that ball
         let (s, t) = (scn.problems[0].starts[0].clone(), scn.problems[0].goal.target.clone());
-        let mut c = geo.interp(&s, &t, rng.range(0.3, 0.7));
+        let d = geo.d(&s, &t);
+        // mostly between start and goal; sometimes ON the goal sample (RRT-Connect's goal root, the
+        // state every goal-biased sample returns) or ON the start (the root no motion validates)
+        let place = rng.below(10);
+        let (mut c, r) = match place {
+            0 => (t.clone(), (d * rng.range(0.02, 0.2)).min(0.9 * d)),
+            1 => (s.clone(), (d * rng.range(0.02, 0.2)).min(0.9 * d)),
+            _ => {
+                let c = geo.interp(&s, &t, rng.range(0.3, 0.7));
+                let r = (d * rng.range(0.1, 0.3)).min(0.9 * geo.d(&c, &s)).min(0.9 * (geo.d(&c, &t) - scn.problems[0].goal.radius).max(0.0));
+                (c, r)
+            }
+        };
         if !canon_state(&spec, &mut c) {
             return None;
         }
-        let d = geo.d(&s, &t);
-        let r = (d * rng.range(0.1, 0.3)).min(0.9 * geo.d(&c, &s)).min(0.9 * (geo.d(&c, &t) - scn.problems[0].goal.radius).max(0.0));
         if !(r > 0.0) {
             return None;
+        }
+        scn.params.insert("fault_place".into(), place.min(2) as f64);
+        // sometimes a second (and third) solve on the same planner object
+        if rng.chance(0.25) {
+            scn.calls.push(solve.clone());
+            if rng.chance(0.3) {
+                scn.calls.push(solve.clone());
+            }
         }
         let mut w1 = scn.worlds[0].clone();
         w1.obstacles.push(Obstacle::Ball { c, r });
